@@ -88,6 +88,13 @@ class Check:
             self.samples.append(rec)
         return ok
 
+    only = None
+
+    def want(self, *rids):
+        """False when this check runs on behalf of another property that shares none of `rids`
+        (lets a rule module skip work whose obligations would be discarded)"""
+        return self.only is None or any(r in self.only for r in rids)
+
     def absorb(self, db, module_name, rule_ids, new_rid, text, pred=None, min_instances=1):
         """shared rules: run another property's rule module on the same program database and
         re-report the obligations of `rule_ids` (optionally filtered by pred(record)) under
@@ -99,7 +106,7 @@ class Check:
             return 0
         import importlib
         mod = importlib.import_module("fsverif.rules." + module_name)
-        ck = (module_name, self.tier, id(db))
+        ck = (module_name, self.tier, id(db), frozenset(rule_ids))
         if ck in _ABSORB_CACHE:
             sub, broken = _ABSORB_CACHE[ck]
         else:
@@ -107,6 +114,7 @@ class Check:
             sub.known = []
             sub.info = self.info
             sub.is_sub = True
+            sub.only = set(rule_ids)
             broken = None
             try:
                 mod.run(db, sub)
